@@ -44,6 +44,15 @@ def run(ctx):
         bad = table.validate_rows(ctx, "Table_C13", e, constants={"W": W}, what="C13 edges")
         if bad:
             ctx.violation("rounding routine violates nearest-rounding at full width: row %s" % bad["row"], detail=bad, files=[e])
+        # histories: the three routines called for interleaved message-space sizes (state kept between calls shows here, a per-M sweep hides it)
+        mx = os.path.join(ctx.dir, "mix-%s.ndjson" % kind)
+        rc, err = table.run_harness(ctx, exe, ["mix", "--M", ",".join(map(str, ms + [6, 9, 100, 12345])), "--iters", 6000 if thorough else 2500, "--seed", ctx.seed + 7], mx)
+        if rc != 0:
+            ctx.violation("harness h_arith mix died rc=%s: %s" % (rc, err[-300:]), key="h_arith mix crash")
+            continue
+        bad = table.validate_rows(ctx, "Table_C13", mx, constants={"W": W}, what="C13 mix")
+        if bad:
+            ctx.violation("rounding routine gives a different answer when calls for different message-space sizes are interleaved: row %s" % bad["row"], detail=bad, files=[mx])
         for s in table.first_rows(e, 1) + table.first_rows(g, 1):
             ctx.sample(s)
     ctx.assume("M = 2^31 is not representable in the API's int32_t Msize; powers of two are covered up to 2^30")
